@@ -242,7 +242,12 @@ def flatten(v, t):
     if k == "sig":
         if isinstance(v, FuncV):
             if v.term is None:
-                raise Unsupported("function value stored into merged/heap state")
+                # a literal / static / bound function stored into the heap or merged: only its non-nil-ness is
+                # observable afterwards (Go function values compare only with nil), so any non-zero handle will do;
+                # calling it later is an abstracted operation
+                import zlib
+                ident = v.key or ("lit@%s" % (id(v.node) if v.node is not None else 0))
+                return [z3.BitVecVal(0x7F000000 | (zlib.crc32(str(ident).encode()) & 0xFFFFFF), RID_BITS)]
             return [v.term]
         return [v.term]
     if k == "array":
